@@ -220,12 +220,18 @@ type c08Spec struct {
 	Async     bool
 	ReadBuf   int
 	ValBuf    int // rowgroup-rows-valbuf: slots of the per-column value buffer of the row reader
+	// nested-* kinds: the tree of MultiRowGroup calls over row groups of the file, e.g. "(((0,1),2),3)";
+	// a leaf is a row group index (any order, repeats allowed), every inner node has >= 2 children
+	Nest string
 }
 
 func (sp c08Spec) String() string {
 	s := fmt.Sprintf("%s rg=%d col=%d range=%d+%d skipindex=%v async=%v readbuf=%d", sp.Kind, sp.RG, sp.Col, sp.Off, sp.Len, sp.SkipIndex, sp.Async, sp.ReadBuf)
 	if sp.ValBuf > 0 {
 		s += fmt.Sprintf(" valbuf=%d", sp.ValBuf)
+	}
+	if sp.Nest != "" {
+		s += " nest=" + sp.Nest
 	}
 	return s
 }
@@ -252,6 +258,14 @@ var c08Kinds = []string{
 	"range-pages",  // row range view column chunk .Pages()
 	"buffer-rows",  // GenericBuffer[T].Rows()
 	"buffer-pages", // GenericBuffer[T].ColumnChunks()[c].Pages()
+	// file.Root().Column(path...).Pages(): one reader over the column's chunks of ALL row groups
+	// (columnPages, column.go), each chunk reader kept open with its own position
+	"column-pages",
+	// MultiRowGroup calls nested to any depth over the file's row groups (spec.Nest): init flattens the
+	// chunks of nested multi row groups and carries their row counts along
+	"nested-rows",
+	"nested-pages",
+	"nested-values",
 }
 
 // kinds that exist only on the file built by c08MergedFile: the column chunks of
@@ -263,6 +277,7 @@ type c08View struct {
 	col       int    // page / values modes: the leaf column (oracle index)
 	base      int    // global row of the view's row 0
 	total     int    // rows in the view
+	rowMap    []int  // nested-* kinds: global row of each view row (nil: base + r)
 	seek      func(int64) error
 	readRows  func(batch int) ([][][]gen.Triple, error) // [row][col]
 	readTyped func(batch int) (reflect.Value, int, error)
@@ -273,6 +288,14 @@ type c08View struct {
 	close     func()
 	pages     parquet.Pages // page mode: the handle, for the verif hook
 	strictNeg bool          // page-level reader of a file: a negative row index must be refused
+}
+
+// row returns the global (oracle) row of view row r.
+func (v *c08View) row(r int) int {
+	if v.rowMap != nil {
+		return v.rowMap[r]
+	}
+	return v.base + r
 }
 
 type c08TypedReader interface {
@@ -556,6 +579,38 @@ func (f *c08File) open(sp c08Spec) (v *c08View, err error) {
 		} else {
 			useValues(parquet.NewColumnChunkValueReader(rg.ColumnChunks()[ci]))
 		}
+	case "column-pages":
+		v.total = f.n
+		col := pf.Root()
+		for _, name := range f.schema.Columns()[sp.Col] {
+			if col = col.Column(name); col == nil {
+				return nil, fmt.Errorf("file has no column %v", f.schema.Columns()[sp.Col])
+			}
+		}
+		usePages(col.Pages())
+	case "nested-rows", "nested-pages", "nested-values":
+		rg, leaves, err := c08BuildNest(sp.Nest, pf.RowGroups())
+		if err != nil {
+			return nil, err
+		}
+		v.rowMap = []int{}
+		for _, g := range leaves {
+			for r := f.rgStart[g]; r < f.rgStart[g+1]; r++ {
+				v.rowMap = append(v.rowMap, r)
+			}
+		}
+		v.total = len(v.rowMap)
+		if int(rg.NumRows()) != v.total {
+			return nil, fmt.Errorf("nested multi row group %s has NumRows %d, its leaves hold %d rows", sp.Nest, rg.NumRows(), v.total)
+		}
+		switch sp.Kind {
+		case "nested-rows":
+			useRows(rg.Rows())
+		case "nested-pages":
+			usePages(rg.ColumnChunks()[sp.Col].Pages())
+		default:
+			useValues(parquet.NewColumnChunkValueReader(rg.ColumnChunks()[sp.Col]))
+		}
 	case "buffer-rows":
 		rg, err := f.buffer()
 		if err != nil {
@@ -574,10 +629,135 @@ func (f *c08File) open(sp c08Spec) (v *c08View, err error) {
 		return nil, fmt.Errorf("unknown view kind %q", sp.Kind)
 	}
 	switch sp.Kind {
-	case "pages", "values", "multi-pages", "multi-values", "range-pages":
+	case "pages", "values", "multi-pages", "multi-values", "range-pages", "column-pages", "nested-pages", "nested-values":
 		v.strictNeg = true
 	}
 	return v, nil
+}
+
+// c08BuildNest evaluates a nest expression: "3" is row group 3, "(a,b,...)" is MultiRowGroup(a,b,...).
+// It returns the row group and the leaves from left to right.
+func c08BuildNest(expr string, rgs []parquet.RowGroup) (parquet.RowGroup, []int, error) {
+	pos := 0
+	var leaves []int
+	var parse func() (parquet.RowGroup, error)
+	parse = func() (parquet.RowGroup, error) {
+		if pos >= len(expr) {
+			return nil, fmt.Errorf("nest expression %q ends early", expr)
+		}
+		if expr[pos] == '(' {
+			pos++
+			var kids []parquet.RowGroup
+			for {
+				k, err := parse()
+				if err != nil {
+					return nil, err
+				}
+				kids = append(kids, k)
+				if pos < len(expr) && expr[pos] == ',' {
+					pos++
+					continue
+				}
+				break
+			}
+			if pos >= len(expr) || expr[pos] != ')' {
+				return nil, fmt.Errorf("nest expression %q: ')' expected at %d", expr, pos)
+			}
+			pos++
+			if len(kids) < 2 {
+				return nil, fmt.Errorf("nest expression %q: an inner node needs >= 2 children", expr)
+			}
+			return parquet.MultiRowGroup(kids...), nil
+		}
+		start := pos
+		for pos < len(expr) && expr[pos] >= '0' && expr[pos] <= '9' {
+			pos++
+		}
+		g, err := strconv.Atoi(expr[start:pos])
+		if err != nil || g >= len(rgs) {
+			return nil, fmt.Errorf("nest expression %q: bad row group at %d", expr, start)
+		}
+		leaves = append(leaves, g)
+		return rgs[g], nil
+	}
+	rg, err := parse()
+	if err == nil && pos != len(expr) {
+		err = fmt.Errorf("nest expression %q: trailing text", expr)
+	}
+	return rg, leaves, err
+}
+
+// c08NestLeaves lists the leaves of a nest expression from left to right.
+func c08NestLeaves(expr string) []int {
+	var out []int
+	for _, t := range strings.FieldsFunc(expr, func(c rune) bool { return c < '0' || c > '9' }) {
+		g, _ := strconv.Atoi(t)
+		out = append(out, g)
+	}
+	return out
+}
+
+// c08NestDepth: nesting depth of MultiRowGroup calls (1 = a flat multi row group).
+func c08NestDepth(expr string) int {
+	d, best := 0, 0
+	for _, c := range expr {
+		if c == '(' {
+			d++
+			best = max(best, d)
+		} else if c == ')' {
+			d--
+		}
+	}
+	return best
+}
+
+// c08RandNest: a random tree of MultiRowGroup calls over 2..7 leaves drawn from nrg row groups: the
+// file's row groups in order, or any sequence with repeats; left-deep, right-deep and random shapes.
+func c08RandNest(r *rand.Rand, nrg int) string {
+	var leaves []string
+	if nrg >= 2 && r.Intn(2) == 0 {
+		for g := 0; g < nrg && g < 8; g++ {
+			leaves = append(leaves, strconv.Itoa(g))
+		}
+	} else {
+		for i, n := 0, 2+r.Intn(6); i < n; i++ {
+			leaves = append(leaves, strconv.Itoa(r.Intn(nrg)))
+		}
+	}
+	var build func(ls []string) string
+	shape := r.Intn(4)
+	build = func(ls []string) string {
+		if len(ls) == 1 {
+			return ls[0]
+		}
+		if len(ls) == 2 {
+			return "(" + ls[0] + "," + ls[1] + ")"
+		}
+		switch shape {
+		case 0: // left-deep: M(M(M(a,b),c),d)
+			return "(" + build(ls[:len(ls)-1]) + "," + ls[len(ls)-1] + ")"
+		case 1: // right-deep
+			return "(" + ls[0] + "," + build(ls[1:]) + ")"
+		}
+		// 2..3 parts at random cuts
+		parts := 2 + r.Intn(2)
+		cuts := map[int]bool{}
+		for len(cuts) < parts-1 {
+			cuts[1+r.Intn(len(ls)-1)] = true
+		}
+		out, start := "(", 0
+		for i := 1; i <= len(ls); i++ {
+			if cuts[i] || i == len(ls) {
+				if start > 0 {
+					out += ","
+				}
+				out += build(ls[start:i])
+				start = i
+			}
+		}
+		return out + ")"
+	}
+	return build(leaves)
 }
 
 // ---------------------------------------------------------------- the L1 checker
@@ -610,7 +790,7 @@ func newC08Checker(f *c08File, v *c08View) *c08Checker {
 	if v.mode == "values" {
 		for r := 0; r < v.total; r++ {
 			ck.rowStart = append(ck.rowStart, len(ck.stream))
-			ck.stream = append(ck.stream, f.rowTr[v.col][v.base+r]...)
+			ck.stream = append(ck.stream, f.rowTr[v.col][v.row(r)]...)
 		}
 		ck.rowStart = append(ck.rowStart, len(ck.stream))
 	}
@@ -633,7 +813,7 @@ func triplesEqual(a, b []gen.Triple) bool {
 func (ck *c08Checker) locate(col int, tr []gen.Triple) string {
 	var hits []string
 	for r := 0; r < ck.v.total && len(hits) < 3; r++ {
-		if triplesEqual(ck.f.rowTr[col][ck.v.base+r], tr) {
+		if triplesEqual(ck.f.rowTr[col][ck.v.row(r)], tr) {
 			hits = append(hits, strconv.Itoa(r))
 		}
 	}
@@ -781,7 +961,7 @@ func (ck *c08Checker) step(op c08Op) (desc string, fail *c08Fail) {
 		}
 		for i, row := range rows {
 			for c := 0; c < ck.f.ncol; c++ {
-				want := ck.f.rowTr[c][v.base+pos+i]
+				want := ck.f.rowTr[c][v.row(pos+i)]
 				if !triplesEqual(want, row[c]) {
 					return fmt.Sprintf("%v @%d -> %d rows, row %d differs", op, pos, n, pos+i), &c08Fail{sym: "wrong-rows",
 						msg: fmt.Sprintf("read at row %d: returned row #%d should be row %d but column %d holds %v (that is %s), expected %v", pos, i, pos+i, c, row[c], ck.locate(c, row[c]), want)}
@@ -823,7 +1003,7 @@ func (ck *c08Checker) step(op c08Op) (desc string, fail *c08Fail) {
 		}
 		var want []gen.Triple
 		for r := pos; r < pos+nr; r++ {
-			want = append(want, ck.f.rowTr[v.col][v.base+r]...)
+			want = append(want, ck.f.rowTr[v.col][v.row(r)]...)
 		}
 		if !triplesEqual(want, tr) {
 			first := "?"
@@ -1172,6 +1352,9 @@ func c08RandSpec(f *c08File, r *rand.Rand, kind string) (c08Spec, bool) {
 	if kind == "rowgroup-rows-valbuf" {
 		sp.ValBuf = []int{1, 1, 2, 3, 5, 7}[r.Intn(6)]
 	}
+	if strings.HasPrefix(kind, "nested-") {
+		sp.Nest = c08RandNest(r, f.nrg())
+	}
 	return sp, true
 }
 
@@ -1181,6 +1364,16 @@ func c08Marks(f *c08File, sp c08Spec, v *c08View, r *rand.Rand) []int {
 	col := sp.Col
 	if v.mode == "rows" || v.mode == "typed" || v.mode == "mixed" {
 		col = r.Intn(f.ncol)
+	}
+	if sp.Nest != "" { // the page boundaries of every leaf, in view rows
+		off := 0
+		for _, g := range c08NestLeaves(sp.Nest) {
+			for _, b := range f.bounds[g][col] {
+				marks = append(marks, off+int(b))
+			}
+			off += f.rgStart[g+1] - f.rgStart[g]
+		}
+		return marks
 	}
 	for rg := 0; rg < f.nrg(); rg++ {
 		for _, b := range f.bounds[rg][col] {
@@ -1933,9 +2126,15 @@ func c08LayerRequest(f *c08File, sp c08Spec, ops []c08Op) string {
 		}
 		return core.JoinInts(rows)
 	}
-	column := func(col int) string { // all row groups
+	column := func(col int) string { // all row groups, or the leaves of the nest expression
 		var cs []string
-		for rg := 0; rg < f.nrg(); rg++ {
+		rgs := c08NestLeaves(sp.Nest)
+		if sp.Nest == "" {
+			for rg := 0; rg < f.nrg(); rg++ {
+				rgs = append(rgs, rg)
+			}
+		}
+		for _, rg := range rgs {
 			c := chunk(rg, col)
 			if c == "" {
 				return ""
@@ -1953,7 +2152,7 @@ func c08LayerRequest(f *c08File, sp c08Spec, ops []c08Op) string {
 		rowsKind, total = true, f.rgStart[sp.RG+1]-f.rgStart[sp.RG]
 	case "range-rows":
 		rowsKind, total = true, sp.Len
-	case "multi-rows", "reader-readrows":
+	case "multi-rows", "reader-readrows", "nested-rows":
 		rowsKind = true
 	case "reader-read":
 		rowsKind = true
@@ -1973,7 +2172,7 @@ func c08LayerRequest(f *c08File, sp c08Spec, ops []c08Op) string {
 			}
 			return fmt.Sprintf("r%d", b)
 		}
-	case "multi-pages", "range-pages":
+	case "multi-pages", "range-pages", "nested-pages", "column-pages":
 	default:
 		return ""
 	}
@@ -2010,6 +2209,20 @@ func c08LayerRequest(f *c08File, sp c08Spec, ops []c08Op) string {
 			return ""
 		}
 		return fmt.Sprintf("multi.run %s %d %s", c, idx, sb.String())
+	case "nested-pages":
+		// the Lean mirror of multiRowGroup.init flattens the tree (chunks and row counts), multiPages
+		// then runs over the result
+		c := column(sp.Col)
+		if c == "" {
+			return ""
+		}
+		return fmt.Sprintf("nested.run %s %s %d %s", sp.Nest, c, idx, sb.String())
+	case "column-pages":
+		c := column(sp.Col)
+		if c == "" {
+			return ""
+		}
+		return fmt.Sprintf("column.run %s %d %s", c, idx, sb.String())
 	case "range-pages":
 		c := chunk(sp.RG, sp.Col)
 		if c == "" {
@@ -2088,10 +2301,23 @@ var c08CorruptRegressions = []struct{ name, ops string }{
 	{"failed read, seek to the next page", "s10 r1 s20 r1 r1"},
 }
 
+// on a fixed file of 4 row groups x 25 rows (pages of 10, 10, 5 rows for the id column), for the
+// readers that span row groups
+var c08MultiRGRegressions = []struct{ name, ops string }{
+	{"read into a later row group, seek back into an earlier one, read on across both", "s30 r1 s5 r1 r1 r1 r1 r1 r1 r1 r1"},
+	{"a row group read to its end, seek back, read on", "s50 r1 r1 r1 r1 s26 r1 r1 r1 r1 r1 r1 r1 r1"},
+	{"seek to the end, then to the start, read everything", "s100 r1 s0 r64 r64 r64 r64 r64 r64 r64 r64 r64 r64 r64 r64"},
+	{"seeks to the first row of every row group and one before", "s25 r1 s24 r1 r1 s50 r1 s49 r1 r1 s75 r1 s74 r1 r1 s99 r1 r1"},
+	{"seek inside each row group from the last to the first", "s80 r1 s55 r1 s30 r1 s5 r1 r1 r1 r1 r1 r1 r1 r1 r1 r1 r1 r1 r1"},
+}
+
+var c08MultiRGKinds = []string{"column-pages", "multi-pages", "multi-values", "multi-rows", "nested-pages", "nested-values", "nested-rows",
+	"reader-readrows", "reader-read", "generic-reader"}
+
 var c08T0 = time.Now()
 
 func RunC08(ctx *core.Ctx) {
-	ctx.SetRule("files of catalogue struct types (nested/repeated/optional columns, random rows) under random writer configurations (page version, codec, page buffers from 1 byte = one page per row, several row groups) x open options (page index loaded or skipped, sync/async, read buffer 1..4096) x reader kind (FilePages, value reader, row group rows, Reader.ReadRows/Read, GenericReader, MultiRowGroup rows/pages/values, row range views, buffers) x random histories of up to 200 SeekToRow/read/lazy-index-load ops aimed at the cached page, page boundaries +-1 and the end; distinct by file+view+history; non-trivial = the history seeks backward at least once on a file of >= 2 rows")
+	ctx.SetRule("files of catalogue struct types (nested/repeated/optional columns, random rows) under random writer configurations (page version, codec, page buffers from 1 byte = one page per row, several row groups) x open options (page index loaded or skipped, sync/async, read buffer 1..4096) x reader kind (FilePages, value reader, row group rows, Reader.ReadRows/Read, GenericReader, MultiRowGroup rows/pages/values, MultiRowGroup calls nested to any depth over any sequence of the row groups, Column.Pages() over all row groups, row range views, buffers) x random histories of up to 200 SeekToRow/read/lazy-index-load ops aimed at the cached page, page boundaries +-1 and the end; distinct by file+view+history; non-trivial = the history seeks backward at least once on a file of >= 2 rows")
 	var mu sync.Mutex
 	shrunk := map[string]int{}
 	newWorker := func() *c08Worker {
@@ -2130,6 +2356,9 @@ func RunC08(ctx *core.Ctx) {
 							if kind == "rowgroup-rows-valbuf" {
 								sp.ValBuf = 1 + col
 							}
+							if strings.HasPrefix(kind, "nested-") {
+								sp.Nest = "(((0,0),0),0)" // the fixed file has one row group: 4 x 100 rows
+							}
 							if strings.HasPrefix(kind, "buffer-") && skip {
 								continue
 							}
@@ -2157,6 +2386,27 @@ func RunC08(ctx *core.Ctx) {
 								}
 								w.runCase(g, sp, c08ParseOps(reg.ops), "regression (corrupted page): "+reg.name)
 							}
+						}
+					}
+				}
+			}
+		}
+		// the readers that span row groups, on a fixed file of 4 row groups
+		if mf, err := c08LocalFile(100, parquet.PageBufferSize(80), parquet.MaxRowsPerRowGroup(25)); err != nil {
+			ctx.Fail("L1", "oracle-sequential-read-differs", "fixed 4-row-group file: "+err.Error(), nil)
+		} else {
+			mf.desc += " maxrows=25"
+			for _, reg := range c08MultiRGRegressions {
+				for _, kind := range c08MultiRGKinds {
+					for col := 0; col < 3; col++ { // id, s (dictionary), tags (repeated)
+						for _, nest := range []string{"(((0,1),2),3)", "(0,(1,(2,3)))", "((0,1),(2,3))", "((1,0,(3,(2,2))),1)"} {
+							sp := c08Spec{Kind: kind, Col: col, SkipIndex: col == 1}
+							if strings.HasPrefix(kind, "nested-") {
+								sp.Nest = nest
+							} else if nest != "(((0,1),2),3)" {
+								continue
+							}
+							w.runCase(mf, sp, c08ParseOps(reg.ops), "regression (4 row groups): "+reg.name)
 						}
 					}
 				}
@@ -2239,8 +2489,9 @@ func RunC08(ctx *core.Ctx) {
 		fmt.Fprintf(os.Stderr, "c08: fixed part done %v\n", time.Since(c08T0))
 	}
 	// 2. random files x views x histories
-	// thorough = 9x the random part of quick (the random part of quick is ~35 s wall on a busy box)
-	filesPerType := ctx.Scale(6, 36)
+	// thorough = ~7x the random part of quick (29 files per type since round 4: 21 kinds instead of 17;
+	// CPU time of thorough is ~10 min in total, i.e. about 1-2 min wall on 16 idle cores, 19 min at load 230)
+	filesPerType := ctx.Scale(6, 29)
 	histsPerView := ctx.Scale(2, 3)
 	var wg sync.WaitGroup
 	sem := make(chan struct{}, 16)
